@@ -264,7 +264,7 @@ LAXD = "jax2onnx/plugins/jax/lax/"
 mutant("c06-cond-branches-swapped-at-unpack", "C06", LAXD + "cond.py", '        false_closed, true_closed = params["branches"]', '        true_closed, false_closed = params["branches"]', expect="then-else")
 mutant("c06-cond-then-else-swapped", "C06", LAXD + "cond.py", "            then_branch=then_graph,\n            else_branch=else_graph,", "            then_branch=else_graph,\n            else_branch=then_graph,", expect="then-else")
 mutant("c06-switch-truncated-to-two", "C06", LAXD + "cond.py", '        false_closed, true_closed = params["branches"]', '        false_closed, true_closed, *_more = params["branches"]', expect="two-branches")
-mutant("c06-reverse-scan-accepted", "C06", LAXD + "scan.py", '        if params.get("reverse", False):\n            raise NotImplementedError("Reverse scan is not supported in IR pipeline.")\n', "", expect="reverse-rejected")
+mutant("c06-reverse-scan-accepted", "C06", LAXD + "scan.py", '        if params.get("reverse", False):\n            raise NotImplementedError("Reverse scan is not supported in IR pipeline.")\n', "", expect="reverse::")
 mutant("c06-while-constant-initial-condition", "C06", LAXD + "while_loop.py", "        loop_inputs = [trip_count, cond_init_val]", "        cond_true = ctx.builder.add_initializer_from_array(name=ctx.fresh_name('while_cond_true'), array=np.asarray(True))\n        loop_inputs = [trip_count, cond_true]", expect="initial-condition")
 mutant("c06-fori-trip-count-constant", "C06", LAXD + "fori_loop.py", "            value=np.asarray(trip_count, dtype=np.int64),", "            value=np.asarray(max(1, 1), dtype=np.int64),", expect="trip-count")
 mutant("c06-scan-extent-mismatch-accepted", "C06", LAXD + "scan.py", "                if int(dim0) != trip_count_int:\n", "                if False:\n", expect="scanned-extent")
